@@ -27,3 +27,8 @@ def check(rep, tier, replay=None):
         "Rule RND (props/roundir.py): first-order rounding-bound interpretation of the same IR over a grid of angles (both sides of every switch constant, pi - 10^-k; the inverse "
         "up to pi - 1e-3), double 1e-7 and float 1e-2; >= 100x the tolerance is a violation.")
     roundir.run(rep, tier, "C04", ["drexp", "drinv"], 1e-7, 1e-2, max_angle={"drinv": math.pi - 1e-3})
+    rep.explanations.append(
+        "Rules TT (props/roundir.py: run_tails): the Taylor-tail helpers of detail/trig.hpp as their own witnesses -- on the path taken for arguments beyond every comparison constant the value "
+        "goes through a libm sine / cosine (a polynomial cannot serve every rotation norm), the rounding bound relative to the value stays below 100 x 1e-9, and the value is continuous where the "
+        "branches meet.")
+    roundir.run_tails(rep, "TT")
